@@ -160,7 +160,7 @@ def py_restorable(subruns):
     if subruns is None:
         return True
     items = [(k, int(v["start"]), int(v["end"])) for k, v in subruns.items()]
-    back = sorted(sorted(items, key=lambda x: x[0]), key=lambda x: x[1])
+    back = sorted(sorted(items, key=lambda x: x[0]), key=lambda x: (x[1], x[2]))   # json sort_keys, then the setter's (start, end)
     return back == items and all(a[2] <= b[1] for a, b in zip(items[:-1], items[1:]))
 
 
@@ -571,7 +571,8 @@ def malformed_stream(rng):
 def zero_subrun_cases(rng, n):
     """super-run streams in which a sub-run contributes a zero-duration chunk (inside the quantifier of C03: 'including
     empty and zero-duration chunks').  `adverse` = the id of the zero-length span sorts after the id of the sub-run that
-    follows it at the same time: the open finding C03-zero-length-subrun when the two end up in one stored chunk."""
+    follows it at the same time and both end up in one stored chunk: the input shape of the FIXED finding
+    C03-zero-length-subrun (D31, /repo a608e2e).  The round trip is demanded for every id order."""
     out = []
 
     def mk(zero_id, next_id, prev, rechunk, t0, rows_after, direct):
@@ -705,13 +706,13 @@ def run(ctx):
        "super-run id without subruns, negative start, header target != chunk target, row outside its chunk): verdicts and what is left on disk "
        "compared with the model; plain round trip still demanded whenever every chunk is a valid chunk")
 
-    # 5. zero-duration chunks inside super-runs (open finding C03-zero-length-subrun on the adverse id order)
+    # 5. zero-duration chunks inside super-runs (regression corpus of the fixed finding C03-zero-length-subrun, D31)
     cases = zero_subrun_cases(rng, ctx.pick(120, 1200))
     go("saveload/zero-length-subrun", cases,
        "super-run streams in which one sub-run contributes a zero-duration chunk followed by a chunk of another sub-run starting at the same "
-       "time (optionally after an earlier sub-run; rechunk on/off; or one chunk carrying both spans): the round trip is demanded for all of "
-       "them; it fails exactly when both spans end up in one stored chunk and the zero-length span's id sorts after the other's "
-       "(KNOWN-FINDING C03-zero-length-subrun), model and implementation agreeing on every verdict")
+       "time (optionally after an earlier sub-run; rechunk on/off; or one chunk carrying both spans), ids in either alphabetical order: the round trip is "
+       "demanded for ALL of them (before the D31 fix it failed when both spans ended up in one stored chunk and the zero-length span's "
+       "id sorted after the other's)")
 
     ctx.note("input distribution: " + ", ".join(f"{k}:{v}" for k, v in sorted(dist.items())))
 
